@@ -1,0 +1,53 @@
+//go:build verif
+
+package gojq
+
+// Verification hooks for property C08 (no crash). Compiled only with the build
+// tag "verif"; exposes unexported internals, changes nothing.
+
+// VerifC08Lex returns the sequence of token codes the lexer hands to the parser
+// driver for src (every Lex result up to and including the first eof), and the
+// lexer offset after each call. The one feedback from the parser to the lexer
+// (the action of `stringparts tokStringQuery query ')'` sets inString) is
+// reproduced by tracking which ')' closes a string interpolation.
+func VerifC08Lex(src string) (chars []int, offsets []int) {
+	l := newLexer(src)
+	var lval yySymType
+	var open []bool // true: opened by tokStringQuery, false: opened by '('
+	for {
+		c := l.Lex(&lval)
+		chars = append(chars, c)
+		offsets = append(offsets, l.offset)
+		switch c {
+		case tokStringQuery:
+			open = append(open, true)
+		case '(':
+			open = append(open, false)
+		case ')':
+			if n := len(open); n > 0 {
+				if open[n-1] {
+					l.inString = true
+				}
+				open = open[:n-1]
+			}
+		}
+		if c <= 0 || len(chars) > 2*len(src)+4 {
+			return
+		}
+	}
+}
+
+// VerifC08ParseStatus runs the generated parser driver over src and reports its
+// return value (0 accept, 1 reject), the number of Lex calls made and the
+// recorded error (nil on accept).
+func VerifC08ParseStatus(src string) (status int, err error) {
+	l := newLexer(src)
+	status = yyParse(l)
+	return status, l.err
+}
+
+// VerifC08TypeErrorPreview is typeErrorPreview (error.go).
+func VerifC08TypeErrorPreview(v any) string { return typeErrorPreview(v) }
+
+// VerifC08LimitedMarshal is jsonLimitedMarshal (preview.go).
+func VerifC08LimitedMarshal(v any, n int) []byte { return jsonLimitedMarshal(v, n) }
